@@ -90,11 +90,11 @@ srcof = $(if $(and $(SHADOW),$(wildcard $(SHADOW)/src/$(1))),$(SHADOW)/src/$(1),
 .SECONDEXPANSION:
 $(OUT)/tsan/%.o: $$(call srcof,$$*.cpp)
 	@mkdir -p $(dir $@)
-	$(CXX) $(REPOCXXFLAGS) -I$(dir $(REPO)/src/$*.cpp) -fsanitize=thread -MMD -MP -c $< -o $@
+	$(CXX) $(REPOCXXFLAGS) -iquote $(dir $(REPO)/src/$*.cpp) -fsanitize=thread -MMD -MP -c $< -o $@
 
 $(OUT)/mut/%.o: $$(call srcof,$$*.cpp)
 	@mkdir -p $(dir $@)
-	$(CXX) $(REPOCXXFLAGS) -I$(dir $(REPO)/src/$*.cpp) -MMD -MP -c $< -o $@
+	$(CXX) $(REPOCXXFLAGS) -iquote $(dir $(REPO)/src/$*.cpp) -MMD -MP -c $< -o $@
 
 $(OUT)/harness: $(OBJS) $(TSANOBJS) $(MUTOBJS) $(KITOBJS) $(SCHEDOBJS) $(LIBS)
 	$(CXX) -pthread -o $@ $(OBJS) $(TSANOBJS) $(filter-out $(patsubst $(OUT)/tsan/%,$(OUT)/mut/%,$(TSANOBJS)),$(MUTOBJS)) $(KITOBJS) $(SCHEDOBJS) $(LIBS) $(SYSLIBS) $(LDEXTRA)
